@@ -75,7 +75,7 @@ class PrinterBase:
                 for i, a_ in enumerate(a.operands):
                     if self.need_ref[a_.ref]:
                         if self.force_cast_arguments:
-                            assignments.append(self.make_assignment(None, a_.ref, self.make_constant(a_, self.tostring(a[i]))))
+                            assignments.append(self.make_assignment(None, a_.ref, self.make_constant(a_, self.make_getitem(a, i))))
                         else:
                             assignments.append(self.make_assignment(self.get_type(a_), a_.ref, self.make_getitem(a, i)))
                         self.defined_refs.add(a_.ref)
